@@ -275,6 +275,28 @@ struct Search {
     transitions: u64,
     variants: u64,
     failure: Option<(String, Vec<Op>, String)>,
+    /// first compaction / clone that hit the work limit on a value with shared sub-values (recorded finding): it is
+    /// reported once under a constant witness and does not end the search of this element
+    sharing_limit: Option<(String, Vec<Op>, String)>,
+}
+
+/// number of nodes of a value written out as a tree (shared sub-values counted once per occurrence)
+fn tree_nodes(v: &V) -> u64 {
+    match v {
+        V::Pair(a, b) | V::Concat(a, b) | V::Range(a, b) | V::Slice(a, b) | V::Partial(a, b) => 1 + tree_nodes(a) + tree_nodes(b),
+        V::List(items) => 1 + items.iter().map(tree_nodes).sum::<u64>(),
+        _ => 1,
+    }
+}
+
+/// does the failure belong to the recorded class "work limit hit because shared sub-values are expanded once per
+/// occurrence"? (the tree expansion of the values involved is larger than the number of cells in the store)
+fn is_sharing_limit(kind: &str, st: &St, values: &[usize]) -> bool {
+    if !kind.contains("Clone limit reached") {
+        return false;
+    }
+    let expanded: u64 = values.iter().map(|a| tree_nodes(&get(&st.d, *a))).sum();
+    expanded > st.d.data_size() as u64
 }
 
 fn check_state(x: &mut Search, st: &St, hist: &[Op]) {
@@ -300,6 +322,14 @@ fn check_state(x: &mut Search, st: &St, hist: &[Op]) {
                     Err(p) => Err(format!("panic[{}]", panic_kind(&p))),
                 };
                 if let Err(k) = res {
+                    // everything the compaction has to copy: the extra roots and whatever the stacks hold
+                    let involved: Vec<usize> = st.values.clone();
+                    if is_sharing_limit(&k, st, &involved) {
+                        if x.sharing_limit.is_none() {
+                            x.sharing_limit = Some((k, hist.to_vec(), format!("optimize retain={} roots={:?}{}", c, r, if twice { " twice" } else { "" })));
+                        }
+                        continue;
+                    }
                     if x.failure.is_none() {
                         x.failure = Some((k, hist.to_vec(), format!("optimize retain={} roots={:?}{}", c, r, if twice { " twice" } else { "" })));
                     }
@@ -315,6 +345,12 @@ fn check_state(x: &mut Search, st: &St, hist: &[Op]) {
             Err(p) => Err(format!("panic[{}]", panic_kind(&p))),
         };
         if let Err(k) = res {
+            if is_sharing_limit(&k, st, &[st.values[i]]) {
+                if x.sharing_limit.is_none() {
+                    x.sharing_limit = Some((k, hist.to_vec(), format!("clone_data value#{}", i)));
+                }
+                continue;
+            }
             if x.failure.is_none() {
                 x.failure = Some((k, hist.to_vec(), format!("clone_data value#{}", i)));
             }
@@ -559,7 +595,7 @@ impl Property for C19 {
                     return;
                 }
             };
-            let mut x = Search { depth: tier.pick(4, 5), states: 0, transitions: 0, variants: 0, failure: None };
+            let mut x = Search { depth: tier.pick(4, 5), states: 0, transitions: 0, variants: 0, failure: None, sharing_limit: None };
             let mut hist = pre.clone();
             // states shallower than the prefix are checked by the first element whose prefix passes through them
             for d in 0..pre.len() {
@@ -579,6 +615,13 @@ impl Property for C19 {
             cx.nontrivial(("graph", idx));
             if let Some((kind, h, variant)) = x.failure {
                 cx.violation(&kind, &format!("{:?} then {}", h, variant), json!({"mode": "graph", "history": h.iter().map(op_json).collect::<Vec<_>>(), "variant": variant}));
+            }
+            if let Some((kind, h, variant)) = x.sharing_limit {
+                cx.violation(
+                    &format!("work-limit-on-shared-values[{}]", if variant.starts_with("clone") { "clone_data" } else { "optimize" }),
+                    "a value whose sub-values are shared (tree expansion larger than the store)",
+                    json!({"mode": "graph", "history": h.iter().map(op_json).collect::<Vec<_>>(), "variant": variant, "error": kind, "class": "sharing-limit"}),
+                );
             }
             cx.sample_at(97, || json!({"construction_prefix": format!("{:?}", pre), "then": "every continuation to the depth bound; in every state optimize(retention boundary x root set, once/twice) and clone_data(every value)"}));
             return;
@@ -616,10 +659,13 @@ impl Property for C19 {
         let ops: Vec<Op> = d["history"].as_array().map(|a| a.iter().filter_map(|x| x.as_str().and_then(parse_op)).collect()).unwrap_or_default();
         match guard(|| replay_history(&ops)) {
             Ok(Ok(st)) => {
-                let mut x = Search { depth: 0, states: 0, transitions: 0, variants: 0, failure: None };
+                let mut x = Search { depth: 0, states: 0, transitions: 0, variants: 0, failure: None, sharing_limit: None };
                 check_state(&mut x, &st, &ops);
                 if let Some((kind, h, variant)) = x.failure {
                     cx.violation(&kind, &format!("{:?} then {}", h, variant), json!({"mode": "graph", "history": d["history"], "variant": variant}));
+                }
+                if let Some((kind, _, variant)) = x.sharing_limit {
+                    cx.violation(&format!("work-limit-on-shared-values[{}]", if variant.starts_with("clone") { "clone_data" } else { "optimize" }), "a value whose sub-values are shared (tree expansion larger than the store)", json!({"mode": "graph", "history": d["history"], "variant": variant, "error": kind}));
                 }
             }
             Ok(Err(k)) => cx.violation(&format!("construction-error[{}]", k.chars().take(50).collect::<String>()), &format!("{:?}", ops), json!({"mode": "graph", "history": d["history"]})),
